@@ -267,6 +267,16 @@ func (c *Ctx) contractFor(fn *ssa.Function) *FuncContract {
 		add(&m.Requires, g.Requires)
 		add(&m.Ensures, g.Ensures)
 		add(&m.FsPaths, g.FsPaths)
+		// forbid clauses of a funcs block apply to every function it selects (package-wide bans)
+		for _, as := range g.Asserts {
+			if as.Forbid {
+				a2 := as
+				if a2.Props == nil {
+					a2.Props = g.Props
+				}
+				m.Asserts = append(append([]AssertSpec{}, m.Asserts...), a2)
+			}
+		}
 		// the properties of a funcs block tag its own clauses only, not the function's other obligations
 	}
 	if m == nil {
